@@ -123,7 +123,9 @@ class Report:
             exit_code = 1
         for m in self.broken_msgs:
             out.append("ANALYSIS-BROKEN: " + m)
-        if self.broken_msgs:
+        if self.broken_msgs and exit_code == 0:
+            # a violation that was established by a rule that ran stays a violation (exit 1);
+            # without one, an analysis that could not be completed is exit 2, never a pass
             exit_code = 2
         nob = sum(r["instances"] for r in self.rules.values())
         ndis = sum(r["discharged"] for r in self.rules.values())
